@@ -90,7 +90,7 @@ Section Lookup.
           replace (Z.to_nat (Z.succ i)) with (S (Z.to_nat i)) by lia. cbn [nth_error].
           destruct (nth_error tg (Z.to_nat i)) as [t|]; [|reflexivity]. unfold lindex_of.
           destruct (index_of (leqb ceqb) rest (flatten t)) as [j|]; [|reflexivity]. cbn [option_map]. f_equal.
-          unfold zlen in *. rewrite map_length. unfold IxTree.label in *. lia.
+          unfold zlen in *. rewrite map_length. unfold IxTreeSpec.label in *. lia.
         * intros Hin. apply in_map_iff in Hin. destruct Hin as (e' & He & _). congruence.
   Qed.
 
